@@ -387,24 +387,32 @@ var c06Concurrent = &vlib.Check{
 		if len(projects) < 2 {
 			return nil
 		}
-		alone := make([]string, len(projects))
-		for i, p := range projects {
+		// key and (for accepted projects) the catalog itself, so that a difference can be classified
+		build := func(p *vlib.Project) (string, string) {
 			b := vlib.Build(p)
-			alone[i] = outcomeKey(b)
-			b.Close()
+			defer b.Close()
+			k := outcomeKey(b)
+			js := ""
+			if b.Out.OK() {
+				if j, err := b.Api.ToJson(); err == nil {
+					js = string(j)
+				}
+			}
+			return k, js
+		}
+		alone, aloneJS := make([]string, len(projects)), make([]string, len(projects))
+		for i, p := range projects {
+			alone[i], aloneJS[i] = build(p)
 			if strings.HasPrefix(alone[i], "CRASH") {
 				return nil
 			}
 			// a result that is not stable even alone is the business of the repeat check (and of its open findings)
-			b2 := vlib.Build(p)
-			k2 := outcomeKey(b2)
-			b2.Close()
-			if k2 != alone[i] {
+			if k2, _ := build(p); k2 != alone[i] {
 				return nil
 			}
 		}
 		rounds := 12
-		got := make([][]string, len(projects))
+		got, gotJS := make([][]string, len(projects)), make([][]string, len(projects))
 		var wg sync.WaitGroup
 		start := make(chan struct{})
 		for i := range projects {
@@ -413,9 +421,8 @@ var c06Concurrent = &vlib.Check{
 				defer wg.Done()
 				<-start
 				for k := 0; k < rounds; k++ {
-					b := vlib.Build(projects[i])
-					got[i] = append(got[i], outcomeKey(b))
-					b.Close()
+					key, js := build(projects[i])
+					got[i], gotJS[i] = append(got[i], key), append(gotJS[i], js)
 				}
 			}(i)
 		}
@@ -424,7 +431,18 @@ var c06Concurrent = &vlib.Check{
 		for i := range projects {
 			for k, g := range got[i] {
 				if g != alone[i] {
-					return vlib.V("c06:concurrent:"+c06RefineLocationClass(projects[i], c06DiffClass(alone[i], g), alone[i], g), "project %d of %d, build %d made while the others were being built, differs from the build made alone:\n alone:      %s\n concurrent: %s", i, len(projects), k, pretty(alone[i]), pretty(g))
+					class := c06RefineLocationClass(projects[i], c06DiffClass(alone[i], g), alone[i], g)
+					if aloneJS[i] != "" && gotJS[i][k] != "" {
+						a, e1 := vlib.ParseOrdered([]byte(aloneJS[i]))
+						b, e2 := vlib.ParseOrdered([]byte(gotJS[i][k]))
+						if e1 == nil && e2 == nil && a.StripExamples().Canon(false) == b.StripExamples().Canon(false) {
+							class = "catalog-example-only"
+							if hasRegexType(projects[i]) {
+								class = "catalog-example-of-schema-using-regex-type" // (open finding N5: not an effect of the concurrency)
+							}
+						}
+					}
+					return vlib.V("c06:concurrent:"+class, "project %d of %d, build %d made while the others were being built, differs from the build made alone:\n alone:      %s\n concurrent: %s", i, len(projects), k, pretty(alone[i]), pretty(g))
 				}
 			}
 		}
